@@ -65,6 +65,7 @@ type vActor struct {
 	gate   vGate
 	steps  int
 	cond   func() bool // for vpxBlockUntil
+	occ    int         // which arrival at this schedule point this is (per actor and point)
 	daemon bool        // never finishes by itself (manual poller); not counted for deadlock
 	auto   bool        // registered itself at a spawn point
 }
@@ -106,6 +107,13 @@ type vSched struct {
 	emit         func(e, k string, n, m int, err string)
 	onStop       func() // called when Run ends, before the parked actors are released
 	blockedAtEnd []vBlocked
+	mainGID      int64  // the goroutine that owns this scheduler (scenario set-up and epilogue run on it)
+	stallName    string // "stall" strategy: this actor is held back at its occ-th arrival at schedule point stallPt
+	stallPt      int32  // for as long as anything else can move
+	stallOcc     int
+	stalled      int                                            // steps during which the stall was in force
+	arrivals     map[string]int                                 // (actor, pt) -> arrivals so far
+	gateLog      [][2]interface{}                               // (actor, pt#occ) of every step taken
 	wrapHook     func(pt int32, obj unsafe.Pointer, a, b int64) // optional: installed instead of s.hook (must call it)
 	projFn       func() []int32                                 // optional: projection of shared words, logged after every step
 	projLog      [][]int32
@@ -121,7 +129,7 @@ var vDebug = os.Getenv("VERIF_DEBUG") != ""
 var vCur *vSched // the scheduler the hook talks to
 
 func vNewSched(seed int64) *vSched {
-	s := &vSched{actors: map[int64]*vActor{}, notify: make(chan *vActor, 64), rnd: rand.New(rand.NewSource(seed)), maxSteps: 4000}
+	s := &vSched{mainGID: vGID(), actors: map[int64]*vActor{}, notify: make(chan *vActor, 64), rnd: rand.New(rand.NewSource(seed)), maxSteps: 4000}
 	return s
 }
 
@@ -177,6 +185,12 @@ func (s *vSched) Go(name string, fn func()) {
 func (s *vSched) park(a *vActor, g vGate) {
 	s.mu.Lock()
 	a.gate = g
+	if s.arrivals == nil {
+		s.arrivals = map[string]int{}
+	}
+	key := fmt.Sprintf("%s/%d", a.name, g.pt)
+	s.arrivals[key]++
+	a.occ = s.arrivals[key]
 	a.state = vStParked
 	s.mu.Unlock()
 	s.notify <- a
@@ -214,6 +228,13 @@ func vTraceOnly(pt int32) bool {
 }
 
 func (s *vSched) hook(pt int32, obj unsafe.Pointer, a, b int64) {
+	// trace points are recorded only for this scenario's own goroutines (a goroutine left over from an
+	// earlier scenario may still be finishing its teardown)
+	if s.emit != nil && vTraceOnly(pt) {
+		if g := vGID(); g != s.mainGID && s.lookup(g) == nil {
+			return
+		}
+	}
 	if s.emit != nil {
 		switch pt {
 		case vpFdClose:
@@ -271,6 +292,10 @@ func (s *vSched) hook(pt int32, obj unsafe.Pointer, a, b int64) {
 	}
 	act.steps++
 	s.park(act, vGate{pt, obj, a, b})
+	if pt == vpSrvStore && b == 1 && s.emit != nil {
+		// released from the point right before connections.Store: nobody else runs until the Store is done
+		s.emit("Track", "", int(a), 0, "")
+	}
 }
 
 type unsafePointer = unsafe.Pointer
@@ -371,6 +396,26 @@ func (s *vSched) Run() {
 			}
 		}
 		s.mu.Unlock()
+		// give the released goroutines a moment to run to their end, so that they do not overlap the next scenario
+		deadline := time.After(30 * time.Millisecond)
+		for {
+			s.mu.Lock()
+			live := 0
+			for _, a := range s.list {
+				if a.state != vStDone {
+					live++
+				}
+			}
+			s.mu.Unlock()
+			if live == 0 {
+				return
+			}
+			select {
+			case <-s.notify:
+			case <-deadline:
+				return
+			}
+		}
 	}()
 	steps := 0
 	for {
@@ -423,6 +468,20 @@ func (s *vSched) Run() {
 			}
 			return
 		}
+		if s.stallName != "" && len(cs) > 1 {
+			// hold the chosen actor back at the chosen point while anything else can move
+			var rest []vChoice
+			for _, c := range cs {
+				if c.actor != nil && c.actor.name == s.stallName && c.actor.gate.pt == s.stallPt && c.actor.occ == s.stallOcc {
+					continue
+				}
+				rest = append(rest, c)
+			}
+			if len(rest) > 0 && len(rest) < len(cs) {
+				cs = rest
+				s.stalled++
+			}
+		}
 		steps++
 		if steps > s.maxSteps {
 			s.stuck = "step budget exhausted"
@@ -430,6 +489,11 @@ func (s *vSched) Run() {
 		}
 		c := s.choose(cs, steps)
 		s.taken = append(s.taken, c.name)
+		if c.actor != nil {
+			s.gateLog = append(s.gateLog, [2]interface{}{c.name, fmt.Sprintf("%d#%d", c.actor.gate.pt, c.actor.occ)})
+		} else {
+			s.gateLog = append(s.gateLog, [2]interface{}{c.name, "env"})
+		}
 		if vDebug {
 			if c.actor != nil {
 				fmt.Printf("step %d: %s at gate %d a=%d b=%d\n", steps, c.name, c.actor.gate.pt, c.actor.gate.a, c.actor.gate.b)
@@ -569,3 +633,5 @@ func (s *vSched) AddTimerEnv(name string, c *connection, write bool, times int) 
 func (s *vSched) AddEnv(name string, times int, enabled func() bool, do func()) {
 	s.envs = append(s.envs, &vEnvAction{name: name, left: times, enabled: enabled, do: do})
 }
+
+func vLoad32(p *int32) int32 { return atomic.LoadInt32(p) }
